@@ -62,7 +62,8 @@ def draw_settings(rng, probe_nyquist):
     if probe_nyquist:
         fcs[-1] = float(rng.choice([26.0, 40.0, 55.0, 70.0, 110.0]))
     s = {"cls": cls, "policy": rng.choice(POLICIES), "width": rng.choice([0.0, 0.05, 0.1, 0.5, 1.0]),
-         "op": op, "bw": bw, "fcs": fcs, "fcs_as": rng.choice(["list", "array"]),
+         "op": op, "bw": bw, "fcs": fcs, "fcs_as": rng.choice(["list", "array", "tuple"]),
+         "wtw_as": rng.choice(["list", "list", "tuple"]),
          "fft_n": rng.choice([None, None, None, 4096, 65536])}
     if cls == "traditional":
         s["method"] = rng.choice(METHODS)
@@ -79,6 +80,8 @@ def draw_settings(rng, probe_nyquist):
 def draw_record(rng, big):
     rate = rng.choice(RATES)
     n = rng.randint(33000, 70000) if big else rng.randint(200, 4000)
+    if not big and rng.random() < 0.08:
+        n = rng.randint(16, 80)                    # very short recordings are legal too
     return {"k": rng.randrange(1 << 30), "n": n, "rate": rate,
             "deg": rng.choice([0.0, 0.0, 15.0, 270.0]), "meta": {"site": rng.choice(["A", "B"]), "tags": [1, 2]}}
 
@@ -178,9 +181,10 @@ def make_record(H, spec):
 
 
 def make_settings(H, s, fft_n="spec"):
-    fcs = list(s["fcs"]) if s["fcs_as"] == "list" else np.array(s["fcs"], dtype=float)
+    fcs = {"list": list, "tuple": tuple}.get(s["fcs_as"], lambda v: np.array(v, dtype=float))(s["fcs"])
     n = s["fft_n"] if fft_n == "spec" else fft_n
-    common = dict(window_type_and_width=["tukey", s["width"]],
+    wtw = ("tukey", s["width"]) if s.get("wtw_as") == "tuple" else ["tukey", s["width"]]
+    common = dict(window_type_and_width=wtw,
                   smoothing=dict(operator=s["op"], bandwidth=s["bw"], center_frequencies_in_hz=fcs),
                   handle_dissimilar_time_steps_by=s["policy"],
                   fft_settings=None if n is None else {"n": int(n)})
@@ -457,10 +461,16 @@ def apply_op(ctx, st, op, prop):
         s, spec = st.sets[op["s"]], st.set_spec[op["s"]]
         how = op["how"]
         if how == "width_inplace":
-            s.window_type_and_width[1] = 0.3
+            if isinstance(s.window_type_and_width, tuple):
+                s.window_type_and_width = ["tukey", 0.3]
+            else:
+                s.window_type_and_width[1] = 0.3
             spec["width"] = 0.3
         elif how == "fcs_inplace":
             f0 = s.smoothing["center_frequencies_in_hz"]
+            if isinstance(f0, tuple):
+                f0 = list(f0)
+                s.smoothing["center_frequencies_in_hz"] = f0
             f0[0] = float(f0[0]) * 1.25
             spec["fcs"] = [float(x) for x in f0]
         elif how == "assign_width":
